@@ -515,6 +515,8 @@ def run_program(ctx, case, pending):
         for i in list(s2.block_events.keys()):
             r.get(i)
         check_sequence(ctx, case, s2, expect, 'reread')
+        if ctx.model_available and case['stream'] != 'int32':
+            pending.append((case, s, r.records[0]['state'], 'filemodel'))
         post_ok = True
         if case.get('post'):
             # continue building on the re-read object: kinds of extensions already in the file and new ones
@@ -570,12 +572,62 @@ def run_program(ctx, case, pending):
     ctx.count('ext.max_chain_len.%d' % min(6, max([0] + [len(b['ops']) + len(b['trigs']) for b in case['blocks']])))
 
 
+def compare_filemodel(ctx, case, state2, out):
+    """the extension part of the store after write + read into a fresh Sequence: implementation vs the Coq file
+    model (Model/ExtFile.v: write_ext, read_ext)"""
+    t = Toks(out)
+    try:
+        mc = t.opt(lambda: sm.p_core(t))
+    except Exception as e:  # noqa: BLE001
+        ctx.mismatch('filemodel', case, {'what': 'cannot parse model output: %r / %s' % (e, out[:200])})
+        return
+    if mc is None:
+        ctx.mismatch('filemodel', case, {'what': 'the file model says read() raises, the implementation read the file'})
+        return
+    names = sm.LIBS
+    for name in ('label_set_library', 'label_inc_library', 'extensions_library'):
+        k = names.index(name)
+        d = sm.cmp_lib(name, state2['libs'][k], mc['libs'][k])
+        if d:
+            ctx.mismatch('filemodel', case, {'what': d})
+            return
+    k = names.index('trigger_library')
+    it, mt = state2['libs'][k], mc['libs'][k]
+    bad = None
+    if [i for i, _ in it['data']] != [i for i, _ in mt['data']] or it['next'] != mt['next']:
+        bad = 'trigger_library ids / next id: impl %s %s model %s %s' % ([i for i, _ in it['data']], it['next'],
+                                                                           [i for i, _ in mt['data']], mt['next'])
+    else:
+        for (i, a), (_, b) in zip(it['data'], mt['data']):
+            if len(a) != 4 or len(b) != 4 or a[0] != b[0] or a[1] != b[1] or not close(a[2], b[2]) or not close(a[3], b[3]):
+                bad = 'trigger_library[%d]: impl %s model %s' % (i, a, [float(x) for x in b])
+                break
+        if sorted(v for _, v in it['keymap']) != sorted(v for _, v in mt['keymap']):
+            bad = bad or 'trigger_library keymap ids differ'
+    if bad:
+        ctx.mismatch('filemodel', case, {'what': bad})
+        return
+    for key in ('ext_num', 'ext_str'):
+        if state2[key] != mc[key]:
+            ctx.mismatch('filemodel', case, {'what': '%s after read: impl %s model %s' % (key, state2[key], mc[key])})
+            return
+
+
 def flush(ctx, pending):
     if not pending:
         return
-    outs = ctx.model([s.line(init) for _, s, init, _ in pending])
+    lines = []
+    for _, s, init, stream in pending:
+        if stream == 'filemodel':
+            lines.append('labels.reread ' + s.header + ' ' + ' '.join([str(len(s.ops))] + s.ops))
+        else:
+            lines.append(s.line(init))
+    outs = ctx.model(lines)
     for (case, s, init, stream), o in zip(pending, outs):
-        compare_store(ctx, case, s, init, o, stream)
+        if stream == 'filemodel':
+            compare_filemodel(ctx, case, init, o)
+        else:
+            compare_store(ctx, case, s, init, o, stream)
     del pending[:]
 
 
